@@ -6,9 +6,15 @@ sys.path.insert(0, os.path.dirname(os.path.dirname(os.path.abspath(__file__))))
 from pyvc import driver
 
 out = {}
+reg = driver.load_contracts()
 for name in sys.argv[1:]:
-    r = driver.run_contract({'function': name})
-    bad = [(o['name'], o['status'], o.get('kind')) for o in r['obligations'] if o['status'] != 'proved']
-    out[name] = {'proved': len(r['obligations']) - len(bad), 'total': len(r['obligations']), 'bad': bad,
-                 'canary_proved': r.get('canary_proved', False)}
+    # the same chunking (and the same budget per chunk) as the checks use
+    n = int(reg[name].get('chunks', 1))
+    obls, canary = [], False
+    for i in range(n):
+        r = driver.run_contract({'function': name, 'chunk': [i, n]})
+        obls += r['obligations']
+        canary = canary or r.get('canary_proved', False)
+    bad = [(o['name'], o['status'], o.get('kind')) for o in obls if o['status'] != 'proved']
+    out[name] = {'proved': len(obls) - len(bad), 'total': len(obls), 'bad': bad, 'canary_proved': canary}
 print(json.dumps(out))
